@@ -85,6 +85,9 @@ FAM = {
     "underflow": [b"cverif_sink\nhit\n(S'A'\ntR00.", b"0."],
     "nomemo": [b"cverif_sink\nhit\n(S'A'\ntRg7\n.", b"h\x05."],
     "persid": [b"cverif_sink\nhit\n(S'A'\ntRPpid\n."],
+    # rated like "sink" (a non-standard import and call) but the stock unpickler cannot resolve the global: an accepted load
+    # that raises inside the unpickler; whatever state the loader keeps across calls has seen a load end by exception
+    "loadfails": [b"cnot_a_real_module\nf\n)R.", b"\x80\x02cnot_a_real_module.sub\nThing\n)\x81."],
     # a global of a sub-module of a package that is importable but not imported yet (importing it is observable)
     "pkgsub": [b"cverif_pkg.sub\nthing\n)R.", b"\x80\x04\x8c\rverif_pkg.sub\x8c\x05thing\x93)R.", b"(iverif_pkg.sub\nthing\n."],
 }
